@@ -86,14 +86,14 @@ Drain(f) == IF Queued(f) = {} THEN <<>>
             ELSE LET v == CHOOSE v \in Top(f) : TRUE IN <<f[v]>> \o Drain([f EXCEPT ![v] = NoP])
 DrainSorted == \A i \in 1..(Len(Drain(q)) - 1) : Drain(q)[i] >= Drain(q)[i + 1]
 
-Obs == [size  |-> Size(q), empty |-> Queued(q) = {},
+ObsOf(q0) == [size  |-> Size(q0), empty |-> Queued(q0) = {},
         \* callback view: the queued items (last reported index >= 0) with their priorities, the set of those indices,
         \* and the items that were told -1 (or nothing at all)
-        tracked |-> {[v |-> v, p |-> q[v]] : v \in Queued(q)},
-        idxs  |-> 0..(Size(q) - 1),
-        gone  |-> Items \ Queued(q),
+        tracked |-> {[v |-> v, p |-> q0[v]] : v \in Queued(q0)},
+        idxs  |-> 0..(Size(q0) - 1),
+        gone  |-> Items \ Queued(q0),
         \* a complete drain: the priorities in pop order and the popped elements
-        drain |-> Drain(q),
-        items |-> {[v |-> v, p |-> q[v]] : v \in Queued(q)}]
-Emit == PrintT(<<"EDGE", ToJson([pre |-> q, act |-> act', post |-> q', obs |-> Obs'])>>)
+        drain |-> Drain(q0),
+        items |-> {[v |-> v, p |-> q0[v]] : v \in Queued(q0)}]
+Emit == PrintT(<<"EDGE", ToJson([pre |-> q, act |-> act', post |-> q', obs |-> ObsOf(q')])>>)
 =============================================================================
